@@ -125,6 +125,12 @@ func newC12Sys(c map[string]interface{}) (*c12Sys, error) {
 	if err != nil {
 		return nil, err
 	}
+	if hooks, _ := c["hooks"].(bool); hooks {
+		// every location of a sys.System has add/rem hooks installed (the cron service); they run with the "hook" privilege,
+		// under which slock/sunlock do nothing: the state lock must already be held around them
+		s.state.AddHook(func(ctx *core.Context, st core.State, id string, fact core.Map, loading bool) error { return nil })
+		s.state.RemHook(func(ctx *core.Context, st core.State, id string) error { return nil })
+	}
 	s.loc, err = core.NewLocation(ctx, "a", s.state, nil)
 	if err != nil {
 		return nil, err
